@@ -1,11 +1,46 @@
-"""C14 — rules not implemented yet (fail closed)."""
-EXPLANATION = "not implemented"
-NOT_DECIDED = "everything"
+"""C14 — particle and sink tables are loaded completely, typed and scaled correctly."""
+from __future__ import annotations
+
+from . import io_rules as io
+from . import io_rules2 as io2
+from . import dg_rules as dg
+
+EXPLANATION = (
+    "Static rules: (R1) the particle header is interpreted with symbolic counters: nparticles is decoded from the third "
+    "record, the five following records are skipped BY THEIR OWN LENGTH MARKERS (symbolic lengths), and variable ivar is "
+    "decoded as nparticles items of its descriptor type at the position the layout gives; (R2) read and skip branches have "
+    "the same counter effect with a symbolic type character; the byte_size table covers d/i/b; (R3) row alignment: one "
+    "piece per file per read variable, pieces concatenated in insertion order for all variables alike, nparticles "
+    "accumulated once per file; (R4) sink parsing: header lines = skiprows, atleast_2d, m/l/t bound to mass/length/time, "
+    "column/key/unit pairing with scale/label pairing, both unit dialects; (R5) missing sink file -> no group, empty file -> "
+    "empty group, kept by an `is not None` test (an empty Datagroup is falsy); (R6) sort on load through Datagroup.sortby "
+    "(one permutation for all members) after assembly.")
+NOT_DECIDED = "CSV number parsing; dtype of integer/byte columns after scaling (they become float64)"
+TRUSTED = ("CPython ast", "S1 particle layout", "numpy.loadtxt semantics")
+TECHNIQUE = "static analysis: polynomial interpretation of the particle header bookkeeping against the layout; path and pairing rules"
 
 
-def not_implemented(run, tree):
-    run.rule("C14.R0", "stub")
-    run.unresolved("stub", "", "rules for C14 are not implemented yet")
+def r1_r2(run, tree):
+    run.rule("C14.R1", "particle header layout; typed read/skip agreement", "D1 + S1", "S1", floor=5)
+    io.check_part_header(run, tree)
+    io.check_record_locator(run, tree)
 
 
-RULES = [not_implemented]
+def r3(run, tree):
+    run.rule("C14.R3", "row alignment across variables", "path rule", "", floor=3)
+    io2.check_part_rows(run, tree)
+
+
+def r4_r5(run, tree):
+    run.rule("C14.R4", "sink parsing; empty vs missing", "path + pairing rules", "", floor=8)
+    io2.check_sink(run, tree)
+    io2.check_scale_label(run, tree)
+
+
+def r6(run, tree):
+    run.rule("C14.R6", "sort on load", "path rule", "", floor=3)
+    io2.check_sortby(run, tree)
+    dg.check_sortby(run, tree)
+
+
+RULES = [r1_r2, r3, r4_r5, r6]
